@@ -234,9 +234,13 @@ def run(chk, prog, tier):
     chk.floor("instance fields", len(fields), 9)
     known = set(PL.INSTANCE_FIELDS_CONFIG) | set(PL.INSTANCE_FIELDS_RESULT)
     for f in fields:
-        chk.require(f in known, "FIELDS", "FIELDS/classified/%s" % f, "src/instruction_data.h",
-                    "instance field %s is classified as configuration or result state" % f,
-                    "new field: decide whether an assemble call may change it")
+        if f in known:
+            chk.ok("FIELDS", "FIELDS/classified/%s" % f, "src/instruction_data.h", "instance field %s is classified as configuration or result state" % f)
+        else:
+            # a field this checker has never seen: nothing can be said about it (analysis broken, not a violation)
+            chk.broken("FIELDS", "FIELDS/classified/%s" % f, "src/instruction_data.h",
+                       "instance field %s is classified as configuration or result state" % f,
+                       "new field: decide whether an assemble call may change it")
     # save/restore discipline
     netdirty, details = PL.config_discipline(prog, roles)
     setters = {"asm_set_chunk_size": {"assembly_mode", "chunk_size"}, "asm_set_debug": {"debug"},
